@@ -1223,3 +1223,113 @@ def q_c14(tr):
 
 
 QUERIES["C14"] = q_c14
+
+
+# ---------------------------------------------------------------------------
+# C05: the cells of a box border emit exactly the border strokes (the link from characters to the
+# four lines that the Kani harnesses o5_1/o5_2 start from)
+
+def q_c05(tr):
+    m = tr.model
+    cg = m.t.interp.cellgrid_fns
+    P = lambda n: m.t.interp.call_fn(cg, n, [])
+    c, k, mm, o, w = P("c"), P("k"), P("m"), P("o"), P("w")
+    have = lambda xs: [x for x in xs if x in m.index]
+    H_ASCII, V_ASCII = have(["-", "~"]), have(["|", ":", "!"])
+    H_UNI, V_UNI = have(["─", "┄"]), have(["│", "┊", "┆"])
+    SHARP = have(["+"])
+    ROUND_T, ROUND_B = have([".", ","]), have(["'", "`"])
+    UNI_C = have(["┌", "┐", "└", "┘"])
+
+    def pieces(a, b):
+        return pieces_of(tables.mk_line(a, b, False))
+
+    def exact(name, desc, centre, R, want_solid, want_dashed, what, either=False):
+        solid, dashed, other = stroke_map(m, centre)
+        viol = []
+        if either:   # dashedness of the stub is not prescribed: compare the union
+            for pc in set(solid) | set(dashed) | set(want_solid):
+                got = tables.f_or(solid.get(pc, F), dashed.get(pc, F))
+                viol.append(f_xor(got, T if pc in want_solid else F))
+        else:
+            for pc in set(solid) | set(want_solid):
+                viol.append(f_xor(solid.get(pc, F), T if pc in want_solid else F))
+            for pc in set(dashed) | set(want_dashed):
+                viol.append(f_xor(dashed.get(pc, F), T if pc in want_dashed else F))
+        viol.append(f_any(cnd for cnd, fr in other))
+        tr.decide(name, "O5.T", desc, centre, R + [m.smt_formula(f_any(viol))], what)
+        res, _ = tr.solver.check(R, want_model=False)
+        tr.nq += 1
+        if res != "sat":
+            tr.add(name + "_witness", "O5.T", "vacuity witness", "inconclusive", reason="role unreachable")
+
+    # --- edge cells -------------------------------------------------------
+    def edge_queries(chars, inline, ends, across_same, dashed_of, seg, fam, perp):
+        """chars: edge characters; inline: the two in-line neighbours; ends: what may continue the edge
+        (edge characters of the family and corners); the row/column on the outer side is blank, the inner
+        side is blank or a label; diagonal cells may hold the perpendicular edge (cells next to a corner)"""
+        for ch in chars:
+            for inner in across_same:      # which side is the inside of the box
+                outer = [s for s in across_same if s != inner][0]
+                allowed = {n: [] for n in NEIGHBOURS}
+                for n in inline:
+                    allowed[n] = ends
+                # the two diagonal cells on the inner side hold the perpendicular edge when this cell is
+                # next to a corner
+                for n in NEIGHBOURS:
+                    if "_" in n and inner in n.split("_"):
+                        allowed[n] = perp
+                R = restrict(m, allowed)
+                for n in inline:
+                    R.append("(not (= %s NONE))" % n)
+                if ch in NEEDS_PARTNER:
+                    R.append("(or %s)" % " ".join("(= %s %s)" % (n, m.cname(ch)) for n in inline))
+                d = dashed_of(ch)
+                ps = set(pieces(*seg))
+                name = "o5_t_edge_%x_in_%s" % (ord(ch), inner)
+                desc = ("%s edge character %r of a box whose inside is towards %s: both in-line neighbours in %s "
+                        "(edge characters or corners), the inner diagonal cells blank, label or a perpendicular edge character, "
+                        "every other neighbour blank or a plain label: the cell emits "
+                        "exactly its full-cell %s segment and nothing else" % (fam, ch, inner, ends, "dashed" if d else "solid"))
+                exact(name, desc, ch, R, set() if d else ps, ps if d else set(),
+                      "border cell %r does not emit exactly its edge segment" % ch)
+
+    dash = lambda ch: ch in ("~", ":", "!", "┄", "┊", "┆")
+    edge_queries(H_ASCII, ("left", "right"), H_ASCII + SHARP + ROUND_T + ROUND_B, ("top", "bottom"), dash, (k, o), "horizontal", V_ASCII)
+    edge_queries(V_ASCII, ("top", "bottom"), V_ASCII + SHARP + ROUND_T + ROUND_B, ("left", "right"), dash, (c, w), "vertical", H_ASCII)
+    edge_queries(H_UNI, ("left", "right"), H_UNI + UNI_C, ("top", "bottom"), dash, (k, o), "horizontal", V_UNI)
+    edge_queries(V_UNI, ("top", "bottom"), V_UNI + UNI_C, ("left", "right"), dash, (c, w), "vertical", H_UNI)
+
+    # --- sharp corners ----------------------------------------------------
+    roles = {"tl": ("right", "bottom"), "tr": ("left", "bottom"), "bl": ("right", "top"), "br": ("left", "top")}
+    stub = {"left": (k, mm), "right": (mm, o), "top": (c, mm), "bottom": (mm, w)}
+    for ch in SHARP:
+        for role, (hs, vs) in roles.items():
+            allowed = {n: [] for n in NEIGHBOURS}
+            allowed[hs] = H_ASCII + SHARP
+            allowed[vs] = V_ASCII + SHARP
+            R = restrict(m, allowed)
+            R += ["(not (= %s NONE))" % hs, "(not (= %s NONE))" % vs]
+            want = set(pieces(*stub[hs])) | set(pieces(*stub[vs]))
+            exact("o5_t_corner_%x_%s" % (ord(ch), role),
+                  "sharp corner %r in role %s: %s neighbour in %s, %s neighbour in %s, every other neighbour blank or a "
+                  "plain label (all box sizes from 2x2 cells): the cell strokes exactly the two half-segments from its "
+                  "centre to the two edges" % (ch, role, hs, allowed[hs], vs, allowed[vs]),
+                  ch, R, want, set(), "corner %r does not emit exactly its two half-segments" % ch, either=True)
+    uni_role = {"┌": "tl", "┐": "tr", "└": "bl", "┘": "br"}
+    for ch in UNI_C:
+        hs, vs = roles[uni_role[ch]]
+        allowed = {n: [] for n in NEIGHBOURS}
+        allowed[hs] = H_UNI + UNI_C
+        allowed[vs] = V_UNI + UNI_C
+        R = restrict(m, allowed)
+        R += ["(not (= %s NONE))" % hs, "(not (= %s NONE))" % vs]
+        want = set(pieces(*stub[hs])) | set(pieces(*stub[vs]))
+        exact("o5_t_corner_%x_%s" % (ord(ch), uni_role[ch]),
+              "box-drawing corner %r: %s neighbour in %s, %s neighbour in %s, the rest blank or labels: exactly the two "
+              "half-segments towards the edges" % (ch, hs, allowed[hs], vs, allowed[vs]),
+              ch, R, want, set(), "corner %r does not emit exactly its two half-segments" % ch, either=True)
+
+
+QUERIES["C05"] = q_c05
+PROPS.add("C05")
